@@ -20,7 +20,7 @@ func init() {
 		Level: "exploration",
 		Rule: "generated streams (clean, with continuity gaps, with adaptation-only packets interleaved, with runs of 1023..6000 consecutive skipped packets) x predicates {PID set, continuity counter, PUSI, adaptation flags (RAI, PCR, discontinuity), per-packet coin flips, skip-all, skip-none} x " +
 			"{NextPacket, NextData}: output with the skipper compared with the output on the stream with those packets deleted; every skipper invocation logged (count, order, header/AF vs reference decoding); " +
-			"parsers {observer, replacer returning 0..3 synthetic data, failing on the n-th unit}: groups logged and compared with the model's units; plus units of 256..2100 packets after a mid-unit join under skipper + observer (stage giant) and runs of up to 140 000 skipped packets; distinct = hash(stream, predicate/parser); " +
+			"parsers {observer, replacer returning 0..3 synthetic data, failing on the n-th unit}: groups logged and compared with the model's units; plus units of 256..2100 packets after a mid-unit join under skipper + observer (stage giant), runs of up to 140 000 skipped packets, interior section headers at every offset before a packet end (header-straddle) and a parser that keeps its groups and re-reads them at the end (retained); distinct = hash(stream, predicate/parser); " +
 			"non-trivial = the predicate skipped ≥1 and kept ≥1 packet, or the parser saw ≥2 groups",
 		Assumptions: []string{"the filtered stream is built by the harness from the same per-packet decisions", "parser errors raised while draining at end of stream are logged by the library, not returned; only errors on the streaming path are required to surface"},
 		Shards:      32,
